@@ -131,7 +131,7 @@ def run_variant(variant, seed=1):
             if kind == "ok":
                 stats["answered"] += 1
                 if dt > (2.5 if name in BLOCKING else 1.5):
-                    anomalies.append({"kind": "slow-reply", "argv": c["argv"], "type": c["type"], "detail": "answered after %.1f s" % dt, "variant": variant})
+                    stats["slow_replies"] = stats.get("slow_replies", 0) + 1     # latency under load is not a verdict; only a missing reply is
             elif kind == "timeout":
                 anomalies.append({"kind": "hang", "argv": c["argv"], "type": c["type"], "detail": "no reply within 8 s", "variant": variant})
             else:
